@@ -162,12 +162,16 @@ def run_flow(ctx: Ctx) -> None:
                 return True, ""
             _guard(ctx, "T10x.warp", f"D={D}:{a}", FFm["warp_image"], f"D={D} axes={a}", th_warp)
 
-        for a in AXES:
-            def th_sample(D=D, a=a):
+        for a, same_domain in [(x, False) for x in AXES] + [(x, True) for x in AXES]:
+            def th_sample(D=D, a=a, same_domain=same_domain):
                 env = FEnv(ctx, D, a, rotate=False)
                 it = env.it
                 news = []
                 for b in range(env.N):
+                    if same_domain:
+                        # same cube, other size (e.g. a pyramid level): the vectors still have to be re-expressed
+                        news.append(it.method(env.grids[b], "resize", tuple(2 * n - 1 for n in env.size)))
+                        continue
                     s = [Rat.atom(f"n{b}{i}") for i in range(D)]
                     for x in s:
                         env.facts.declare_positive(x)
@@ -194,7 +198,7 @@ def run_flow(ctx: Ctx) -> None:
                         return False, (f"item {b}, representation {a}: resampled vectors are not re-expressed from the old to the new grid "
                                        f"(first {to_rat(out.plain()[b].flat()[0])} expected {to_rat(want.flat()[0])})")
                 return True, ""
-            _guard(ctx, "T10x.sample", f"D={D}:{a}", FFm["sample"], f"D={D} axes={a}", th_sample)
+            _guard(ctx, "T10x.sample", f"D={D}:{a}:same_domain={same_domain}", FFm["sample"], f"D={D} axes={a} same_domain={same_domain}", th_sample)
 
 
 def run_normalize(ctx: Ctx) -> None:
